@@ -26,6 +26,7 @@ variant makes each generator one atomic step, i.e. the sequential theorems apply
 import LinVerif.Model.IdAssignCfg
 import LinVerif.Lemmas.C09Kv
 import LinVerif.Lemmas.C09KvLookup
+import LinVerif.Lemmas.C09KvStale
 import LinVerif.Lemmas.C09Hist
 
 namespace LinVerif.Props.C09
@@ -94,6 +95,22 @@ theorem schema_locked_lookup_tie :
     currentCfg.schemaLockedUsesCache = false →
       C09.schemaGetSchemaLockedCalls = ["uint32", "mutable.Get", "immutable.Get", "s.getSchemaFromKV"] ∨
       C09.schemaGetSchemaLockedCalls = [] := by decide
+
+/-- createValue's re-check under the write lock reads `s.snapshot` directly — exact call list between
+`lock.Lock` and `createFn`, no `bucketCache.Get` / `bucketCache.Add`, reader built on `s.snapshot` — whenever
+the tree is classified `recheckLocked` -/
+theorem kv_locked_recheck_tie :
+    currentCfg.kv = .recheckLocked →
+      callsBefore (callsAfter C09.kvCreateValueCalls "lock.Lock") "createFn" =
+        ["defer:lock.Unlock", "s.getValueFromMem", "s.getValueFromMem", "v1.NewIndexKVReader", "reader.GetBucket",
+         "defer:bucket.Release", "bucket.GetValue", "mutable.Get", "make", "mutable.Put"] ∧
+      C09.kvCreateValueReaderArgs = ["s.snapshot"] := by decide
+
+/-- the lock-free lookup path is where the bucket cache is read and filled; Flush purges it under the lock -/
+theorem kv_bucket_cache_tie :
+    C09.kvGetOrCreateCalls.filter (fun c => c = "bucketCache.Get" ∨ c = "s.getSnapshot" ∨ c = "bucketCache.Add" ∨ c = "s.addBucketCache") =
+      ["bucketCache.Get", "s.getSnapshot", if currentCfg.kvCacheAddGuarded then "s.addBucketCache" else "bucketCache.Add"] ∧
+    (callsAfter C09.kvFlushCalls "lock.Lock").contains "bucketCache.Purge" = true := by decide
 
 /-- readers fill the cache after their kv read (`GetSchema`), `Flush` purges it under the lock -/
 theorem schema_cache_tie :
@@ -294,6 +311,14 @@ theorem stable_concurrent_locked {s0 s : KSys} (h0 : KStart s0) (r : KReach .rec
 theorem injective_concurrent_locked {s0 s : KSys} (h0 : KStart s0) (r : KReach .recheckLocked s0 s) : KInjective s :=
   kinv_injective (kinv_reach_locked h0 r)
 
+/-- **the locked create path never consults the LRU bucket cache** — and therefore the property survives
+it: callers' lock-free persisted lookups may miss through an arbitrarily stale cached bucket
+(`KStepStale.staleMiss`; a bucket of an older snapshot cached after Flush's purge), yet under every
+interleaving every name has one id and ids are not shared -/
+theorem stable_concurrent_locked_staleCache {s0 s : KSys} (h0 : KStart s0)
+    (r : KReachStale (kstep .recheckLocked) s0 s) : KStable s ∧ KInjective s :=
+  ⟨kinvL_stable (kinvL_reach h0 r), kinvL_injective (kinvL_reach h0 r)⟩
+
 /-- non-vacuity: an empty store is a start state; so is any recovered store below its counter -/
 example : KStart { store := {}, ctr := 0 } := by
   refine ⟨rfl, rfl, fun _ _ => rfl, rfl, rfl, ?_, ?_⟩ <;> intros <;> simp_all [Dict.empty]
@@ -309,7 +334,10 @@ theorem existing_name_found (v : KvVariant) {s0 s1 s : KSys} (h0 : KStart s0) (r
 /-- what the property says about a variant of `createValue` -/
 def KvVerdict : KvVariant → Prop
   | .recheckFull => ∀ s0 s, KStart s0 → KReach .recheckFull s0 s → KStable s ∧ KInjective s
-  | .recheckLocked => ∀ s0 s, KStart s0 → KReach .recheckLocked s0 s → KStable s ∧ KInjective s
+  | .recheckLocked => ∀ s0 s, KStart s0 → KReachStale (kstep .recheckLocked) s0 s → KStable s ∧ KInjective s
+  | .recheckLockedCached =>
+    -- a locked re-check that reads the bucket through a stale cache is, at worst, a re-check of the memory maps only
+    ∃ s, KReachStale (kstep .recheckMem) { store := {}, ctr := 0 } s ∧ ¬ KStable s
   | v => ∃ s, KReach v { store := {}, ctr := 0 } s ∧ ¬ KStable s
 
 namespace Neg
@@ -354,6 +382,23 @@ theorem lookup_flush_persistedFirst_locked :
 /-- … while lindb's order finds the name on the same schedule -/
 theorem lookup_flush_memFirst :
     (kexec .noRecheck { store := {}, ctr := 0 } lookupFlushSchedule).threads = [⟨0, 7, .done 0⟩, ⟨0, 7, .done 0⟩] := by
+  decide
+
+/-- name 7 is created and persisted by a whole flush; a later call misses it in memory (flushed) and —
+through a stale cached bucket — in the persisted lookup; a createValue that looks again only where a
+stale cache can hide the name creates a second id -/
+def staleCacheSchedule : List (KAct ⊕ Nat) :=
+  [.inl (.call 0 7), .inl (.thread 0), .inl (.thread 0), .inl (.thread 0), .inl .prepare, .inl .commit, .inl .finish,
+   .inl (.call 0 7), .inl (.thread 1), .inr 1, .inl (.thread 1)]
+
+theorem stable_staleCache_cachedRecheck :
+    ∃ s, KReachStale (kstep .recheckMem) { store := {}, ctr := 0 } s ∧ ¬ KStable s :=
+  ⟨_, kexecStale_reach _ _ staleCacheSchedule,
+    not_stable_of_two_ids (b := 0) (n := 7) (i := 0) (j := 1) (by decide) (by decide)⟩
+
+/-- lindb's createValue on the same schedule (stale miss included): one id -/
+theorem staleCache_locked :
+    (kexecStale (kstep .recheckLocked) { store := {}, ctr := 0 } staleCacheSchedule).threads = [⟨0, 7, .done 0⟩, ⟨0, 7, .done 0⟩] := by
   decide
 
 /-- the same schedule as run by the driver's `krace` op -/
@@ -478,6 +523,26 @@ theorem schema_cache_verdict : SchemaCacheVerdict currentCfg.schemaLockedUsesCac
   | false => exact gen_ignores_cache
   | true => exact Neg.schema_cache_race_cached
 
+/-- what the LRU bucket cache does to the lookup-only path (`GetValue`, createFn = nil: a caller that
+reaches `afterDisk` answers not-found). Unguarded `bucketCache.Add`: a stale bucket can be cached after the
+purge, a later lookup of a name that is in the store misses (`staleMiss`) and answers not-found. Guarded
+add (only while the snapshot read is still the store's snapshot): the cache is coherent, the system
+without stale misses applies, and `existing_name_found` says every later call finds the name. -/
+def BucketCacheVerdict : Bool → Prop
+  | true => ∀ (v : KvVariant) (s0 s1 s : KSys), KStart s0 → KReach v s0 s1 → ∀ b n, s1.store.Owned b n → KReach v s1 s →
+      ∀ k t, s1.threads.length ≤ k → s.threads[k]? = some t → t.bucket = b → t.name = n → ∀ q, t.pc ≠ .afterDisk q
+  | false => (kexecStale (kstep .recheckLocked) { store := {}, ctr := 0 }
+      [.inl (.call 0 7), .inl (.thread 0), .inl (.thread 0), .inl (.thread 0), .inl .prepare, .inl .commit, .inl .finish,
+       .inl (.call 0 7), .inl (.thread 1), .inr 1]).threads = [⟨0, 7, .done 0⟩, ⟨0, 7, .afterDisk 1⟩]
+
+/-- **bucket_cache_verdict**: decided for the `bucketCache.Add` /repo has now -/
+theorem bucket_cache_verdict : BucketCacheVerdict currentCfg.kvCacheAddGuarded := by
+  cases h : currentCfg.kvCacheAddGuarded with
+  | true => exact fun v s0 s1 s h0 r1 b n hown r => late_callers_find v h0 r1 hown r
+  | false =>
+    show (kexecStale _ _ _).threads = _
+    decide
+
 /-- what lookup ‖ flush says about the order of the two lookups -/
 def LookupVerdict : Bool → Prop
   | true => ∀ (v : KvVariant) (s0 s1 s : KSys), KStart s0 → KReach v s0 s1 → ∀ b n, s1.store.Owned b n → KReach v s1 s →
@@ -494,7 +559,8 @@ theorem lookup_verdict : LookupVerdict currentCfg.kvMemFirst := by
 
 theorem kv_verdict_all : ∀ v, KvVerdict v
   | .recheckFull => fun _ _ h0 r => ⟨stable_concurrent h0 r, injective_concurrent h0 r⟩
-  | .recheckLocked => fun _ _ h0 r => ⟨stable_concurrent_locked h0 r, injective_concurrent_locked h0 r⟩
+  | .recheckLocked => fun _ _ h0 r => stable_concurrent_locked_staleCache h0 r
+  | .recheckLockedCached => Neg.stable_staleCache_cachedRecheck
   | .recheckMem => Neg.stable_concurrent_recheckMem
   | .noRecheck => Neg.stable_concurrent_noRecheck
 
